@@ -408,6 +408,34 @@ theorem meta_both_styles (attrs : List (PStr × AttrVal)) (cs ct he : AttrVal) (
   · rw [meta_rewritten_charset attrs cs e h0 hv0]; rfl
   · rw [meta_content_placeholder attrs ct he h1 hv1 h2 h3]; rfl
 
+/-- **A declaration made through the API is a declaration.** `soup.new_tag("meta", attrs=…, **kw)` — the `attrs`
+    dictionary (the only way to pass `http-equiv`), keywords, or both, under any builder configuration — yields the same
+    placeholders as parsing the tag: whenever the merged attributes hold a `charset` value, rendering with
+    `eventual_encoding = e` writes `e`; an entry of `attrs` wins over a keyword of the same name, and a key that `attrs` does
+    not mention keeps its keyword value. -/
+theorem new_tag_meta_rewritten (kw attrs : List (PStr × AttrVal)) (old : AttrVal) (e : PStr)
+    (h : lookupAttr (ofS "charset") (mergeAttrs kw attrs) = some old) (hv : old ≠ .novalue) :
+    (lookupAttr (ofS "charset") (newTagAttrs (ofS "meta") kw attrs)).map (attrValue (some e))
+      = some (if isPythonSpecific e then [] else e) :=
+  meta_rewritten_charset (mergeAttrs kw attrs) old e h hv
+
+theorem new_tag_content_placeholder (kw attrs : List (PStr × AttrVal)) (ct he : AttrVal)
+    (h1 : lookupAttr (ofS "content") (mergeAttrs kw attrs) = some ct) (hv : ct ≠ .novalue)
+    (h2 : lookupAttr (ofS "http-equiv") (mergeAttrs kw attrs) = some he) (h3 : isContentType he = true) :
+    lookupAttr (ofS "content") (newTagAttrs (ofS "meta") kw attrs) = some (.contentMeta ct.str) :=
+  meta_content_placeholder (mergeAttrs kw attrs) ct he h1 hv h2 h3
+
+theorem new_tag_attrs_win (k : PStr) (v : AttrVal) (kw attrs : List (PStr × AttrVal)) :
+    lookupAttr k (mergeAttrs kw (attrs ++ [(k, v)])) = some v
+    ∧ ((∀ a ∈ attrs, a.1 ≠ k) → lookupAttr k (mergeAttrs kw attrs) = lookupAttr k kw) :=
+  ⟨lookup_mergeAttrs_last k v kw attrs, lookup_mergeAttrs_absent k attrs kw⟩
+
+example : decodeNode (some (ofS "koi8-r")) [] (.tag (ofS "meta") (newTagAttrs (ofS "meta") [(ofS "content", .plain (ofS "x"))]
+    [(ofS "http-equiv", .plain (ofS "Content-Type")), (ofS "content", .plain (ofS "text/html; charset=utf-8"))]) [])
+    = ofS "<meta content=\"text/html; charset=koi8-r\" http-equiv=\"Content-Type\"/>" := by decide
+example : decodeNode (some (ofS "koi8-r")) [] (.tag (ofS "meta") (newTagAttrs (ofS "meta") [(ofS "charset", .plain (ofS "utf8"))] []) [])
+    = ofS "<meta charset=\"koi8-r\"/>" := by decide
+
 /-- `<meta charset="utf-8" content="text/html; charset=utf-8" http-equiv="content-type">` -/
 def metaBothAttrs : List (PStr × AttrVal) :=
   [(ofS "charset", .plain (ofS "utf-8")), (ofS "content", .plain (ofS "text/html; charset=utf-8")),
